@@ -86,6 +86,14 @@ class StructVal:
             lo, hi = (-(1 << (8 * sz - 1)), (1 << (8 * sz - 1)) - 1) if signed else (0, (1 << (8 * sz)) - 1)
             if isinstance(v, (bool, SBool)):
                 v = sym.ite(v, 1, 0) if isinstance(v, SBool) else int(v)
+            if isinstance(v, SBV) and not signed and v.w <= 8 * sz:
+                # a bit-vector that fits the field: its bytes are bit slices (no range check needed)
+                t = v._ext(8 * sz)
+                bs = [SBV(z3.simplify(z3.Extract(8 * i + 7, 8 * i, t))) for i in range(sz)]
+                if self.big:
+                    bs.reverse()
+                out.extend(bs)
+                continue
             if isinstance(v, SBV):
                 v = v.to_int()
             if is_sym(v):
@@ -173,6 +181,11 @@ class StructVal:
             if signed:
                 raise Unsupported("signed struct fields")
             bs = chunk if self.big else list(reversed(chunk))
+            if bs and all(isinstance(b, SBV) and b.w <= 8 for b in bs):
+                # all bytes are bit-vectors: keep the value a bit-vector (concatenation, high byte first)
+                ts = [b._ext(8) for b in bs]
+                out.append(SBV(z3.simplify(ts[0] if len(ts) == 1 else z3.Concat(*ts))))
+                continue
             acc = 0
             for b in bs:
                 if isinstance(b, SBV):
